@@ -24,7 +24,7 @@ CHECKS = {
  "C05": seq("all pre-histories x all staging sequences within the bound with Batch.Get of every key after every staging step compared with a layered reference map; Commit result, reuse rejection, and the state after restart compared with the fold of the batch in issue order",
             "bounds: 3 keys, pre-history <=2-3 ops, staging <=4-6 ops incl. overflow of DataFileSize mid-way", "DESIGN.md §6 C05"),
  "C06": seq("operation sequences with Merge (both scan orders) and restarts: reference-map oracle after every step (live, after adoption, after later restarts); after adoption the merge directory is gone and merged files hold exactly the live records, once, no tombstones; fault injection: each I/O call of Merge fails once",
-            "concurrent writers racing the merge scan are decided by the SCHED scenarios of C08; one fault per run", "DESIGN.md §6 C06"),
+            "sequential part + fault injection (one fault per run) + SCHED scenarios Merge || 1-2 writer calls (all schedules up to the preemption bound)", "DESIGN.md §6 C06"),
  "C07": ("crash", "exhaustive enumeration of crash instants of Merge and of the adopting Open, nested (the recovery itself is crashed at each of its I/O events), plus all subsets of partially executed remove-all",
             "every history within the bound + Merge / Merge+adopting restart: crash image after every I/O event, each recovered with the real Open and compared with the acknowledged mapping, recursively to nesting depth 2-3",
             "process death only; file-system calls atomic and durable in order; Standard I/O", "DESIGN.md §6 C07"),
